@@ -6,14 +6,13 @@ package main
 import (
 	"errors"
 	"fmt"
+	"log/slog"
 	"math"
 	"os"
 	"path/filepath"
 	"sort"
 	"strconv"
 	"strings"
-
-	"github.com/prometheus/common/promslog"
 
 	"github.com/prometheus/prometheus/storage"
 	"github.com/prometheus/prometheus/tsdb/encoding"
@@ -177,7 +176,7 @@ func runCase(c *h.Ctx, ops []string) {
 			}
 		case "wfile":
 			dir := fileDir()
-			_, err := tombstones.WriteFile(promslog.NewNopLogger(), dir, sortedReader{mt})
+			_, err := tombstones.WriteFile(slog.New(slog.DiscardHandler), dir, sortedReader{mt})
 			if err != nil {
 				c.Op(op, "err-write")
 				break
@@ -216,7 +215,6 @@ func runCase(c *h.Ctx, ops []string) {
 
 var times = []int64{math.MinInt64, math.MinInt64 + 1, -3, -1, 0, 1, 2, 3, 4, 5, 6, 7, 8, 9, 10, 11, 20, 21, 63, 64, 65, 8191, 8192, 1 << 40, math.MaxInt64 - 1, math.MaxInt64}
 var refs = []uint64{0, 1, 2, 3, 127, 128, 300, 16383, 16384, 1 << 32, 1<<63 - 1, 1 << 63, math.MaxUint64}
-
 
 func main() {
 	c := h.Init()
@@ -310,7 +308,7 @@ func main() {
 		enc, _ := tombstones.Encode(sortedReader{shadow})
 		ops = append(ops, "dec "+h.Hex(enc))
 		dir := fileDir()
-		tombstones.WriteFile(promslog.NewNopLogger(), dir, sortedReader{shadow})
+		tombstones.WriteFile(slog.New(slog.DiscardHandler), dir, sortedReader{shadow})
 		file, _ := os.ReadFile(filepath.Join(dir, tombstones.TombstonesFilename))
 		ops = append(ops, "rfile "+h.Hex(file))
 		c.Count(fmt.Sprintf("enclen:%d", len(enc)/16*16))
